@@ -229,7 +229,9 @@ def run_pipeline(prop, tier, grammars, cfg, per_tu=8, flavour='clang'):
     specs = []
     for i in range(0, len(grammars), per_tu):
         specs.append({'prop': prop, 'grammars': [g.to_json() for g in grammars[i:i + per_tu]], 'seed': common.seed() * 100003 + i,
-                      'flavour': flavour, 'cfg': cfg})
+                      'flavour': flavour, 'cfg': cfg,
+                      # every fourth parser of the table-oriented checks is constructed at run time (new parser(...)) instead of constexpr
+                      'runtime_ctor': [k for k in range(per_tu) if k % 4 == 3] if prop in ('C01', 'C11', 'C05') else []})
     return common.pmap(pipeline.worker, specs)
 
 REF_ASSUME = ['reference canonical LR(1) construction, driver and lexer model (lib/vf/ref_lr1.py, lib/vf/model.py); the driver is cross-checked against an Earley recogniser by tools/setup.py',
